@@ -22,7 +22,13 @@ def conditions(tier):
     return cs
 
 
-BProp("C19", conditions,
+def extra(tier):
+    from . import hist_probe
+
+    return hist_probe.run(tier)
+
+
+BProp("C19", conditions, extra=extra,
       functions=["autograd.tracer:TraceStack.new_trace (no try/finally: an exception leaves the counter raised)", "autograd.tracer:trace", "autograd.tracer:find_top_boxed_args", "autograd.tracer:primitive.f_wrapped",
                  "autograd.core:make_vjp", "autograd.core:make_jvp", "autograd.core:backward_pass", "registries: primitive_vjps, primitive_jvps, Box.type_mappings, VSpace.mappings, notrace_primitives"],
       files=["autograd/tracer.py", "autograd/core.py"],
